@@ -37,7 +37,43 @@ reading the body in the handler raises (`none`: the body is fine / not read) -/
 structure HReq where
   req : Req
   bodyErr : Option String
+  ext : Option (List (Str × Str)) := none
+    -- `some sets`: the handler stores these extension attributes / items on `app.request`
+    -- (`request.user = v`, `request._token = v`, `request['app.key'] = v`; the login-then-anonymous
+    -- pattern) and answers with what it then reads back for all probe names
 deriving Inhabited
+
+/-- the names the probing handler reads: a public and an underscore-prefixed extension attribute
+and a plain environ item -/
+def probeNames : List String := ["user", "_token", "app.key"]
+
+def lookupLast (k : Str) : List (Str × Str) → Option Str
+  | [] => none
+  | (k', v) :: r =>
+    match lookupLast k r with
+    | some x => some x
+    | none => if k' == k then some v else none
+
+/-- what the probing handler answers: `name=value` or `name=-` (attribute / item absent) -/
+def renderExt (ext : List (Str × Str)) : Str :=
+  ";".toList.intercalate (probeNames.map fun n =>
+    n.toList ++ '=' :: ((lookupLast n.toList ext).getD "-".toList))
+
+/-- what `request` holds when the handler runs: `_handle` has re-initialised it with the new
+environ, then the handler's own assignments -/
+def extAtHandler (s : Slots) (r : Req) (sets : List (Str × Str)) : List (Str × Str) :=
+  (match (s.initRequest r).req with
+   | some q => q.ext
+   | none => []) ++ sets
+
+/-- the probing handler's outcome -/
+def withProbe (s : Slots) (hr : HReq) (req : Req) : Req :=
+  match hr.ext, req.route with
+  | some sets, .found h =>
+    (match h.res with
+     | .returns _ => { req with route := .found { h with res := .returns (.text (renderExt (extAtHandler s req sets))) } }
+     | _ => req)
+  | _, _ => req
 
 /-- the complete response as the server sees it -/
 structure Response where
@@ -87,13 +123,19 @@ def handlerReached (res : Result) (r : Req) : Bool :=
 
 /-- one request served by the application in state `st` -/
 def serve (app : App) (st : AppState) (hr : HReq) : AppState × Response :=
-  let (req, raised) := resolve st.shared hr
+  let (req0, raised) := resolve st.shared hr
+  let req := withProbe st.slots hr req0
   let res := wsgi app st.slots req
   let shared' :=
     match raised with
     | some e => if handlerReached res req then raiseShared st.shared e req.id else st.shared
     | none => st.shared
-  ({ slots := res.slots, shared := shared' }, responseOf res)
+  -- the extension attributes stay in the environ the request object points at
+  let slots' :=
+    match hr.ext, res.slots.req with
+    | some sets, some q => if handlerReached res req then { res.slots with req := some { q with ext := sets } } else res.slots
+    | _, _ => res.slots
+  ({ slots := slots', shared := shared' }, responseOf res)
 
 def serve₁ (app : App) (st : AppState) (hr : HReq) : AppState := (serve app st hr).1
 
